@@ -17,7 +17,8 @@ from translate import lean_str, str_list
 
 MODULES = ["analytics", "aspect", "bump", "classify", "convolution", "curvature", "focal", "hillshade",
            "local", "multispectral", "pathfinding", "perlin", "proximity", "slope", "terrain", "utils",
-           "viewshed", "zonal"]
+           "viewshed", "zonal", "polygonize"]
+MODULE_PATHS = {"polygonize": "experimental/polygonize.py"}
 # public defs that are not raster functions (scalar helpers, GPU plumbing, plotting)
 EXCLUDE = {
     "utils": {"has_cuda_and_cupy", "is_cupy_array", "cuda_args", "calc_cuda_dims", "is_cupy_backed",
@@ -26,6 +27,7 @@ EXCLUDE = {
     "proximity": {"euclidean_distance", "manhattan_distance", "great_circle_distance"},
     "zonal": {"get_full_extent", "suggest_zonal_canvas"},
     "convolution": {"circle_kernel", "annulus_kernel"},
+    "polygonize": {"generated_jit"},
 }
 
 SC = ("sc",)
@@ -93,6 +95,9 @@ PRIMS.update({
     "pd.DataFrame": "alloc", "pd.Index": "alloc", "pd.Series": "alloc", "pd.concat": "alloc",
     "ds.Canvas": "alloc", "tf.Image": "alloc", "tf.Image.fromarray": "alloc",
     "Counter": "alloc", "re.split": "scalar",
+    # optional output containers of polygonize (not installed here, not probed): they copy what they are given
+    "geopandas.GeoDataFrame": "alloc", "spatialpandas.GeoDataFrame": "alloc", "awkward.Array": "alloc",
+    "spatialpandas.geometry.PolygonArray": "alloc", "shapely.geometry.Polygon": "alloc",
     # builtins
     "tuple": "join", "list": "join", "dict": "join", "set": "join", "sorted": "join", "reversed": "join",
     "zip": "join", "enumerate": "join", "iter": "join", "map": "join", "filter": "join", "next": "join",
@@ -197,6 +202,8 @@ class Module:
                     self.aliases[local] = MODULE_ALIASES.get(mod, mod) + "." + a.name
         elif isinstance(st, ast.Assign) and len(st.targets) == 1 and isinstance(st.targets[0], ast.Name):
             self.consts[st.targets[0].id] = st.value
+        elif isinstance(st, ast.ClassDef):
+            self.consts[st.name] = ast.Constant(0)      # enums / plain classes: no array inside
         elif isinstance(st, ast.Try):
             for s in st.body:
                 if not (isinstance(s, ast.Import) and any(a.name == "cupy" for a in s.names)):
@@ -207,7 +214,7 @@ class Module:
 def load_modules(repo):
     mods = {}
     for m in MODULES:
-        p = os.path.join(repo, "xrspatial", m + ".py")
+        p = os.path.join(repo, "xrspatial", MODULE_PATHS.get(m, m + ".py"))
         if os.path.exists(p):
             mods[m] = Module(m, ast.parse(open(p).read()))
     return mods
@@ -456,9 +463,12 @@ class Translator:
         self.names = []        # debug name of every DSL variable
         self.kind = {}         # var -> 'pyc' (python container holding references)
         self.isarr = set()     # vars that certainly hold an array / list (indexing with them copies)
-        self.notarr = set()    # vars assigned something that is not certainly an array at least once
+        self.loop_exits = []   # per enclosing loop: flag snapshots at break / continue
         self.cont = set()      # vars that are a python container object created here (list / dict / set)
+        self.oned = set()      # vars that certainly hold a 1-D array (ravel / flatten): x[i] is a scalar
         self.elems = {}        # container var -> var standing for what its elements may refer to
+        self.fields = {}       # (elements var, constant key) -> var: entries stored under a literal key.
+        #                        Assumption (documented): a computed key never equals a literal key of the same dict.
         self.sameobj = {}      # var -> index of the input object it *is* (plain name / parameter passing)
         self.blocks = [[]]
         self.stack = []        # FunctionDef nodes being inlined
@@ -495,7 +505,10 @@ class Translator:
     def vars_of(self, v):
         """DSL variables a value may hold references to"""
         if v[0] == "var":
-            return [v[1]] + ([self.elems[v[1]]] if v[1] in self.elems else [])
+            if v[1] in self.elems:
+                e = self.elems[v[1]]
+                return [v[1], e] + [f for (ee, _), f in self.fields.items() if ee == e]
+            return [v[1]]
         if v[0] == "tup":
             return [x for e in v[1] for x in self.vars_of(e)]
         if v[0] == "fn" and v[1].kind == "partial":
@@ -539,6 +552,19 @@ class Translator:
             self.isarr.add(t)
         return ("var", t)
 
+    def flags(self):
+        return (set(self.isarr), set(self.oned), dict(self.sameobj))
+
+    def set_flags(self, f):
+        self.isarr, self.oned, self.sameobj = set(f[0]), set(f[1]), dict(f[2])
+
+    @staticmethod
+    def flags_join(a, b):
+        """must-flags (isarr, oned) hold after a join only if they hold on both paths; `sameobj` (may) on either"""
+        so = dict(b[2])
+        so.update(a[2])
+        return (a[0] & b[0], a[1] & b[1], so)
+
     def elems_of(self, c):
         if c not in self.elems:
             self.elems[c] = self.new(self.names[c] + "[]")
@@ -573,11 +599,15 @@ class Translator:
         elif d in self.cont:
             # d was a container on another path and is now something opaque: its elements may be s
             self.weak_view(self.elems_of(d), s)
-        if s in self.isarr and d not in self.notarr:
+        # must-flags are flow sensitive: strong update here, intersection at joins (see flags_join)
+        if s in self.isarr:
             self.isarr.add(d)
         else:
             self.isarr.discard(d)
-            self.notarr.add(d)
+        if s in self.oned:
+            self.oned.add(d)
+        else:
+            self.oned.discard(d)
         if plain and s in self.sameobj:
             self.sameobj[d] = self.sameobj[s]
         else:
@@ -591,8 +621,28 @@ class Translator:
             return self.temp_join([v], "elt")
         c = v[1]
         if c in self.cont:
-            return ("var", self.elems_of(c))
+            e = self.elems_of(c)
+            fs = [f for (ee, _), f in self.fields.items() if ee == e]
+            if not fs:
+                return ("var", e)
+            t = self.new(self.names[c] + "[*]")
+            self.join_into(t, [("var", x) for x in [e] + fs])
+            return ("var", t)
         return v
+
+    def const_key(self, scope, idx):
+        if isinstance(idx, ast.Constant) and isinstance(idx.value, (str, int)):
+            return repr(idx.value)
+        if isinstance(idx, ast.Name) and idx.id not in getattr(scope.scalars, "sites", {}) \
+                and idx.id in scope.module.consts and isinstance(scope.module.consts[idx.id], ast.Constant):
+            return repr(scope.module.consts[idx.id].value)
+        return None
+
+    def field_of(self, c, key):
+        e = self.elems_of(c)
+        if (e, key) not in self.fields:
+            self.fields[(e, key)] = self.new(f"{self.names[c]}[{key}]")
+        return self.fields[(e, key)]
 
     # ---- names
     def global_scalar(self, module, n):
@@ -837,7 +887,12 @@ class Eval(Translator):
             parts = idx.elts if isinstance(idx, ast.Tuple) else [idx]
             advanced = any(self.is_mask(scope, p) for p in parts)
             if b in self.cont:
-                return self.load_elem(base)
+                ck = self.const_key(scope, idx)
+                if ck is not None:
+                    return ("var", self.field_of(b, ck))
+                return ("var", self.elems_of(b))
+            if b in self.oned and len(parts) == 1 and not isinstance(idx, ast.Slice) and scope.scalars.scalar(idx):
+                return SC            # one scalar index into a 1-D array: an element, not a view
             if advanced and self.kind.get(b) != "pyc":
                 t = self.new("fancy")
                 self.used.add("mask-index")
@@ -919,6 +974,8 @@ class Eval(Translator):
             if cls == "view":
                 return src
             t = self.new(what.split(".")[-1])
+            if what == "np.ravel":
+                self.oned.add(t)
             self.emit("copy" if cls == "copy" else "mview", t, src[1])
             if cls == "copy" and self.kind.get(src[1]) == "pyc" and what == "copy.copy":
                 self.weak_view(t, src[1])      # a shallow copy of a container still refers to the elements
@@ -1072,6 +1129,8 @@ class Eval(Translator):
             return ("var", t)
         if cls == "alloc":
             t = self.new(attr)
+            if attr == "flatten":
+                self.oned.add(t)
             self.emit("copy" if attr in ("copy", "flatten") else "alloc", *((t, r) if attr in ("copy", "flatten") else (t,)))
             if attr == "copy" and self.kind.get(r) == "pyc":
                 self.weak_view(t, r)
@@ -1083,6 +1142,8 @@ class Eval(Translator):
             return recv
         if cls == "mview":
             t = self.new(attr)
+            if attr == "ravel":
+                self.oned.add(t)
             self.emit("mview", t, r)
             return ("var", t)
         if cls == "wself":
@@ -1155,9 +1216,14 @@ class Eval(Translator):
             scope.special.pop(n, None)
             d = self.var_of(scope, n)
             if v == SC:
+                if isinstance(valnode, (ast.List, ast.Dict, ast.Set, ast.ListComp, ast.DictComp, ast.SetComp)) or (
+                        isinstance(valnode, ast.Call) and dotted(valnode.func) in ("list", "dict", "set")):
+                    # a container that is empty / holds scalars for now, but is not a scalar name: it is filled later
+                    self.alias(d, self.mk_container([], "box")[1])
+                    return
                 self.emit("alloc", d)
                 self.isarr.discard(d)
-                self.notarr.add(d)
+                self.oned.discard(d)
                 self.sameobj.pop(d, None)
             else:
                 self.alias(d, v[1], plain=isinstance(valnode, ast.Name))
@@ -1174,7 +1240,7 @@ class Eval(Translator):
         if isinstance(target, ast.Subscript):
             base = self.eval(scope, target.value)
             self.eval(scope, target.slice)
-            self.store_into(base, v)
+            self.store_into(base, v, self.const_key(scope, target.slice))
             return
         if isinstance(target, ast.Attribute):
             base = self.eval(scope, target.value)
@@ -1201,7 +1267,7 @@ class Eval(Translator):
             return
         raise Unsupported(f"assignment target {type(target).__name__}")
 
-    def store_into(self, base, v):
+    def store_into(self, base, v, key=None):
         """base[...] = v"""
         if base == SC or base[0] in ("ext",):
             return
@@ -1210,8 +1276,14 @@ class Eval(Translator):
         for b in dict.fromkeys(self.vars_of(base) if base[0] == "tup" else [base[1]]):
             self.emit("write", b)
             if b in self.cont:
+                dst = self.field_of(b, key) if key is not None else self.elems_of(b)
                 for x in self.vars_of(v):
-                    self.weak_view(self.elems_of(b), x)
+                    self.weak_view(dst, x)
+                if isinstance(v, tuple) and v[0] == "var" and v[1] in self.cont:
+                    self.cont.add(dst)        # a container stored in a container (dict of lists)
+                    ev = self.elems_of(v[1])
+                    if dst not in self.elems:
+                        self.elems[dst] = ev
             elif self.kind.get(b) == "pyc":
                 for x in self.vars_of(v):
                     self.weak_view(b, x)
@@ -1279,12 +1351,16 @@ class Eval(Translator):
                     return
                 self.eval(scope, st.test)
                 if bt or et:
+                    f0 = self.flags()
                     self.push()
                     self.stmts(scope, st.body + ([] if bt else rest))
                     p = self.pop()
+                    fp = self.flags()
+                    self.set_flags(f0)
                     self.push()
                     self.stmts(scope, st.orelse + ([] if et else rest))
                     q = self.pop()
+                    self.set_flags(self.flags_join(fp, self.flags()))
                     if not p and only_raises_deep(st.body):
                         self.blocks[-1].extend(q)
                     elif not q and only_raises_deep(st.orelse):
@@ -1292,12 +1368,16 @@ class Eval(Translator):
                     elif p or q:
                         self.emit("ite", p, q)
                     return
+                f0 = self.flags()
                 self.push()
                 self.stmts(scope, st.body)
                 p = self.pop()
+                fp = self.flags()
+                self.set_flags(f0)
                 self.push()
                 self.stmts(scope, st.orelse)
                 q = self.pop()
+                self.set_flags(self.flags_join(fp, self.flags()))
                 if p or q:
                     self.emit("ite", p, q)
                 continue
@@ -1307,6 +1387,8 @@ class Eval(Translator):
             if isinstance(st, ast.Raise):
                 return
             if isinstance(st, (ast.Break, ast.Continue)):
+                if self.loop_exits:
+                    self.loop_exits[-1].append(self.flags())     # the flags on this way out join the loop's
                 return
             self.stmt(scope, st)
 
@@ -1359,21 +1441,29 @@ class Eval(Translator):
                 raise Unsupported("augmented assignment target")
         elif isinstance(st, ast.Expr):
             self.eval(scope, st.value)
-        elif isinstance(st, ast.For):
-            itv = self.eval(scope, st.iter)
-            self.push()
-            self.bind_elem(scope, st.target, itv, st.iter)
-            self.stmts(scope, st.body)
-            body = self.pop()
-            if body:
-                self.emit("loop", body)
-            if st.orelse:
-                self.stmts(scope, st.orelse)
-        elif isinstance(st, ast.While):
-            self.push()
-            self.eval(scope, st.test)
-            self.stmts(scope, st.body)
-            body = self.pop()
+        elif isinstance(st, (ast.For, ast.While)):
+            itv = self.eval(scope, st.iter) if isinstance(st, ast.For) else None
+            head = self.flags()
+            for _ in range(8):
+                # the flags assumed at the loop head must also hold after the body (any iteration count)
+                self.set_flags(head)
+                self.push()
+                self.loop_exits.append([])
+                if isinstance(st, ast.For):
+                    self.bind_elem(scope, st.target, itv, st.iter)
+                else:
+                    self.eval(scope, st.test)
+                self.stmts(scope, st.body)
+                body = self.pop()
+                joined = self.flags_join(head, self.flags())
+                for fx in self.loop_exits.pop():
+                    joined = self.flags_join(joined, fx)
+                if joined[0] == head[0] and joined[1] == head[1]:
+                    break
+                head = joined
+            else:
+                raise Unsupported("loop flags do not stabilise")
+            self.set_flags(joined)
             if body:
                 self.emit("loop", body)
             if st.orelse:
@@ -1387,16 +1477,24 @@ class Eval(Translator):
         elif isinstance(st, ast.Try):
             self.stmts(scope, st.body)
             for h in st.handlers:
+                f0 = self.flags()
                 self.push()
                 self.stmts(scope, h.body)
                 p = self.pop()
+                self.set_flags(self.flags_join(f0, self.flags()))
                 if p:
                     self.emit("ite", p, [])
             self.stmts(scope, st.orelse)
             self.stmts(scope, st.finalbody)
         elif isinstance(st, ast.FunctionDef):
             scope.special[st.name] = ("fn", FuncRef("def", module=scope.module, node=st, scope=scope, name=st.name))
-        elif isinstance(st, (ast.Pass, ast.Import, ast.ImportFrom, ast.Assert)):
+        elif isinstance(st, ast.Import):
+            for a in st.names:
+                scope.special[a.asname or a.name.split(".")[0]] = ("ext", MODULE_ALIASES.get(a.name, a.name))
+        elif isinstance(st, ast.ImportFrom):
+            for a in st.names:
+                scope.special[a.asname or a.name] = ("ext", MODULE_ALIASES.get(st.module or "", st.module or "") + "." + a.name)
+        elif isinstance(st, (ast.Pass, ast.Assert)):
             if isinstance(st, ast.Assert):
                 self.eval(scope, st.test)
         elif isinstance(st, ast.Delete):
